@@ -2478,6 +2478,15 @@ fn main() {
         // ---- MemoryMappedAllocator, numa functions
         reg.add(mmap_alloc("MemoryMappedAllocator[min=16KiB]", 16 * 1024, &[16383, 16384, 16385, 20480], 0, 4, 5));
         reg.add(mmap_alloc("MemoryMappedAllocator[min=16KiB]/prefill5", 16 * 1024, &[16383, 16384, 20481], 5, 4, 6));
+        // five regions of one size live at once, four of them already freed (= the region cache is full): the next free
+        // overflows the cache and the allocation after it must not be handed an unmapped region
+        {
+            let mut s = mmap_alloc("MemoryMappedAllocator[min=16KiB]/prefill5,freed4", 16 * 1024, &[16383, 16384, 20481], 5, 4, 5);
+            for _ in 0..4 {
+                s.0.prefill.push(Op::Free(0));
+            }
+            reg.add(s);
+        }
         reg.add(numa(4, 5));
 
         // =========================================================================================
